@@ -7,6 +7,7 @@ from ..flow import AbsInt
 from ..rules import decide_states
 
 ID = "C16"
+ANCHORS = 'io.read_meme,io._interleave_loci,io.extract_loci'.split(",")
 MIN_INSTANCES = 10
 EXPLANATION = (
     "R-FLUSH (read_meme): the line parser is a three-state machine; the rule requires that a motif is committed in the same "
